@@ -62,6 +62,14 @@ def perform(op, ctx):
         hit = b.calc(op["calc"]).fire(b.shot(op["shot"]), ctx.arg(op["range"]), **kw)
         ctx.hits[op.get("_idx")] = hit
         return hit
+    if k == "edit":
+        b.apply_edits([[op["kind"], op["index"], op["field"], op["value"]]])
+        return None
+    if k == "fire_tmp":
+        # a shot built from scratch for this one computation and dropped afterwards, on the task's long-used calculator
+        mb = Builder(op["world"], shared=True, seam=b.seam)
+        kw = {"trajectory_step": mb.q(op["step"])} if op.get("step") is not None else {}
+        return b.calc(op["calc"]).fire(mb.shot(0), mb.q(op["range"]), **kw)
     if k == "zero":
         return b.calc(op["calc"]).set_weapon_zero(b.shot(op["shot"]), ctx.arg(op["dist"]))
     if k == "elev":
